@@ -115,6 +115,8 @@ def rule_load_dispatch(ctx):
 
 
 def run(ctx):
+    from ..rules import generic as _G11
+    _G11.rule_F11(ctx, ['partitura.io.importmei', 'partitura.io.importkern'], 'C19')
     rule_tables(ctx)
     rule_load_dispatch(ctx)
     X.rule_truncated_quotient(ctx, ("partitura.io.importmei", "partitura.io.importkern"))
